@@ -11,6 +11,12 @@
    range(max_steps_per_worker), while iterations < max_iterations).  Limits are
    Z as in Python; a negative range is empty (Z.to_nat).
 
+   The swarm is modelled twice: against stateless worker behaviours (section 2)
+   and against a factory + workers that are one state machine over an arbitrary
+   state type (section 2b: workers own their WorkerMemory; the swarm only reads
+   it for hints and for the apoptosis text); 2 is an instance of 2b
+   (Proofs.swarm_stateless_instance_proof) and run_case uses 2b.
+
    Raw outputs, errors, structures, responses, tool calls are integers (ids).
    A Python exception raised by an environment callable is an explicit
    constructor (GRaise, WStepRaise, factory_ok = false, PRaise, None): the
@@ -185,6 +191,110 @@ Definition supervise (max_regenerations max_steps : Z) : swarm_result :=
   | SFactoryRaised | SStepRaised => mkSwarm false false None ws ap rg None
   end.
 End Swarm.
+
+(* ---------------------------------------------------------------------- *)
+(* 2b. the swarm against workers that OWN MUTABLE STATE                     *)
+
+(* A worker is an object the swarm does not own: the Worker protocol asks for
+   id / memory / step and nothing else.  What a step does to the worker's own
+   record (WorkerMemory: append one entry, several, none, trim it to a sliding
+   window) and what record a worker starts with (a factory may hand back a
+   pooled or checkpoint-restored worker) is the worker's business.  The swarm
+   only READS that record: summarizer(worker.memory) -> the hints handed to the
+   next factory call, and len(worker.memory.task_history) -> the text of the
+   apoptosis event.  The budgets must hold whatever the workers do with it.
+
+   The environment (factory, all workers, their memories, anything else they
+   share) is ONE state machine over an ARBITRARY state type Env; hints are an
+   arbitrary type Hint. *)
+Section SwarmE.
+Variables Env Hint : Type.
+(* worker_factory(name_w, hints): creates the worker (true) or raises (false) *)
+Variable spawn : Env -> nat -> Hint -> Env * bool.
+(* worker_w.step(task) *)
+Variable wstepf : Env -> nat -> Env * wstep.
+(* summarizer(worker_w.memory) *)
+Variable summarize : Env -> nat -> Hint.
+(* len(worker_w.memory.task_history) *)
+Variable memlen : Env -> nat -> nat.
+(* memory_hints = [] *)
+Variable h0 : Hint.
+Variable thr : Q.
+
+(* _run_worker: n = steps still allowed -- a LOCAL of the call (range(max_steps_per_worker)):
+   nothing the worker does to its own state can reach it *)
+Fixpoint run_worker_e (w n : nat) (recent : list Z) (e : Env) : Env * nat * wres :=
+  match n with
+  | O => (e, O, WLimit)
+  | S n' =>
+      let '(e1, st) := wstepf e w in
+      match st with
+      | WStepRaise => (e1, 1%nat, WRaised)
+      | WOut o true => (e1, 1%nat, WSuccess o)
+      | WOut o false =>
+          let recent' := push3 o recent in
+          if collapsed thr recent' then (e1, 1%nat, WCollapse)
+          else let '(e2, c, r) := run_worker_e w n' recent' e1 in (e2, S c, r)
+      end
+  end.
+
+(* one record per factory invocation: the stateless record, the hints the
+   factory was given, and (for a worker that went through apoptosis) the length
+   of its task_history at that moment *)
+Record wrece := mkWE { we_rec : wrec; we_hints : Hint; we_memlen : nat }.
+
+Fixpoint sup_loop_e (steps n w : nat) (hints : Hint) (e : Env)
+  : Env * list wrece * list (nat * nat) * sfinal :=
+  match n with
+  | O => (e, [], [], SFail)
+  | S n' =>
+      let '(e1, ok) := spawn e w hints in
+      if ok then
+        let '(e2, c, r) := run_worker_e w steps [] e1 in
+        match r with
+        | WSuccess o => (e2, [mkWE (mkW w c r) hints 0], [], SSucc w o)
+        | WRaised => (e2, [mkWE (mkW w c r) hints 0], [], SStepRaised)
+        | _ =>
+            let '(e3, ws, rg, f) := sup_loop_e steps n' (S w) (summarize e2 w) e2 in
+            (e3, mkWE (mkW w c r) hints (memlen e2 w) :: ws,
+             (match n' with O => [] | S _ => [(w, S w)] end) ++ rg, f)
+        end
+      else (e1, [mkWE (mkW w 0 WNotCreated) hints 0], [], SFactoryRaised)
+  end.
+
+(* supervise on a swarm whose _worker_counter is w0, environment in state e *)
+Definition supervise_e (max_regenerations max_steps : Z) (w0 : nat) (e : Env)
+  : Env * swarm_result * list wrece :=
+  let '(e', ws, rg, f) :=
+    sup_loop_e (Z.to_nat max_steps) (Z.to_nat (max_regenerations + 1)) w0 h0 e in
+  let rs := map we_rec ws in
+  let ap := length (filter is_failed rs) in
+  (e',
+   match f with
+   | SSucc w o => mkSwarm true true (Some o) rs ap rg (Some w)
+   | SFail => mkSwarm true false None rs ap rg None
+   | SFactoryRaised | SStepRaised => mkSwarm false false None rs ap rg None
+   end, ws).
+
+(* consecutive supervise() calls on ONE swarm: the worker counter is cumulative
+   and the environment goes on from the state the previous call left *)
+Fixpoint swarm_runs_e (mg ms : Z) (n w0 : nat) (e : Env)
+  : list (nat * swarm_result * list wrece) :=
+  match n with
+  | O => []
+  | S n' =>
+      let '(e', r, ws) := supervise_e mg ms w0 e in
+      (w0, r, ws) :: swarm_runs_e mg ms n' (w0 + length (s_workers r))%nat e'
+  end.
+End SwarmE.
+Arguments run_worker_e {Env}.
+Arguments mkWE {Hint}.
+Arguments we_rec {Hint}.
+Arguments we_hints {Hint}.
+Arguments we_memlen {Hint}.
+Arguments sup_loop_e {Env Hint}.
+Arguments supervise_e {Env Hint}.
+Arguments swarm_runs_e {Env Hint}.
 
 (* ====================================================================== *)
 (* 3. LLM tool loop — re-entrant                                           *)
@@ -489,6 +599,44 @@ Definition interp_beh (t : list (list wstep)) (d : wstep) (w j : nat) : wstep :=
   nth j (nth w t []) d.
 Definition interp_fac (t : list bool) (w : nat) : bool := nth w t true.
 
+(* what the scripted workers do with their own WorkerMemory.  The memory is the
+   list of recorded output ids (output_history; task_history has the same length). *)
+Inductive mpol :=
+| MRecord            (* SimpleWorker: one entry per step *)
+| MWindow (k : nat)  (* the work function keeps only the last k entries, then the step is recorded *)
+| MNone              (* a Worker that keeps its own transcript and never writes WorkerMemory *)
+| MPre (n : nat)     (* a pooled / restored worker: n entries ("restored", id -1) already on its record *)
+| MDouble.           (* the work function records the attempt itself as well: two entries per step *)
+
+Definition lastn {A} (k : nat) (l : list A) : list A := skipn (length l - k) l.
+
+Definition mem_init (p : mpol) : list Z :=
+  match p with MPre n => repeat (-1) n | _ => [] end.
+Definition mem_record (p : mpol) (o : Z) (m : list Z) : list Z :=
+  match p with
+  | MRecord | MPre _ => m ++ [o]
+  | MWindow k => lastn k m ++ [o]
+  | MNone => m
+  | MDouble => m ++ [o; o]
+  end.
+
+(* environment state of the scripted swarm stubs: step index and memory of the current worker *)
+Definition cenv := (nat * list Z)%type.
+(* create_default_summarizer(): ("Previous worker attempted: N steps" -> N, else 0;
+   "Worker got stuck repeating same output" present) *)
+Definition chint := (nat * bool)%type.
+
+Definition interp_spawn (fac : list bool) (p : mpol) (_ : cenv) (w : nat) (_ : chint) : cenv * bool :=
+  ((O, mem_init p), interp_fac fac w).
+Definition interp_wstep (t : list (list wstep)) (d : wstep) (p : mpol) (e : cenv) (w : nat)
+  : cenv * wstep :=
+  let st := interp_beh t d w (fst e) in
+  ((S (fst e), match st with WOut o _ => mem_record p o (snd e) | WStepRaise => snd e end), st).
+Definition interp_summarize (e : cenv) (_ : nat) : chint :=
+  (length (snd e),
+   match snd e with [] => false | _ => Nat.eqb (distinct (lastn 3 (snd e))) 1 end).
+Definition interp_memlen (e : cenv) (_ : nat) : nat := length (snd e).
+
 Inductive pitem := PI (c : Z) (calls : list Z) | PIRaise.
 Definition pitem_resp (i : pitem) : presp :=
   match i with PI c calls => PResp c calls | PIRaise => PRaise end.
@@ -572,7 +720,7 @@ Definition interp_tool_post (tools : list tkind) (s : cst) (call : Z) (c : optio
 Inductive case :=
 | CHeal (g : gbeh) (v : list (Z * vres)) (decay : Q) (max_retries : Z)
 | CSwarm (fac : list bool) (beh : list (list wstep)) (dflt : wstep) (thr : Q)
-         (max_regenerations max_steps : Z)
+         (max_regenerations max_steps : Z) (pol : mpol)   (* pol: what the workers do with their memory *)
 | CTool (p : pbeh) (c : cbeh) (tools : list tkind) (has_method : bool) (max_depth : nat)
         (calls : list (Z * bool))    (* consecutive calls on one nucleus: (max_iterations, auto_execute) *)
 (* n consecutive heal() calls on ONE ChaperoneLoop / chaperone / generator: the loop keeps no state, the
@@ -581,7 +729,7 @@ Inductive case :=
 (* n consecutive supervise() calls on ONE RegenerativeSwarm: _worker_counter is cumulative, so a later
    call names (and the factory sees) workers w0, w0+1, ... where w0 = factory invocations so far *)
 | CSwarmSeq (fac : list bool) (beh : list (list wstep)) (dflt : wstep) (thr : Q)
-            (max_regenerations max_steps : Z) (ncalls : nat).
+            (max_regenerations max_steps : Z) (pol : mpol) (ncalls : nat).
 
 Definition b2z (b : bool) : Z := if b then 1 else 0.
 Definition n2z (n : nat) : Z := Z.of_nat n.
@@ -613,15 +761,26 @@ Definition wres_code (r : wres) : Z :=
   match r with WSuccess _ => 0 | WCollapse => 1 | WLimit => 1 | WRaised => 3 | WNotCreated => 4 end.
 (* collapse and step-limit are not distinguishable on the implementation (both return None) *)
 
-Definition obs_swarm (r : swarm_result) : list (list Z) :=
+(* the swarm run against workers with their own memory; worker indices relative to the
+   swarm's _worker_counter w0 at entry; per factory invocation also the hints it was handed, and per
+   apoptosis event of a returned result the step count it reports (len(worker.memory.task_history)) *)
+Definition obs_swarm_e (x : nat * swarm_result * list (wrece chint)) : list (list Z) :=
+  let '(w0, r, ws) := x in
+  let rel (w : nat) : Z := n2z w - n2z w0 in
   [ [ 2; b2z (s_returned r); b2z (s_success r);
       match s_output r with Some _ => 1 | None => 0 end;
       match s_output r with Some o => o | None => 0 end;
-      n2z (length (s_workers r));
+      n2z (length ws);
       (if s_returned r then n2z (s_apoptosis r) else 0);
-      match s_final_worker r with Some w => n2z w | None => -1 end ] ]
-  ++ map (fun w => [20; n2z (w_idx w); n2z (w_steps w); wres_code (w_res w)]) (s_workers r)
-  ++ (if s_returned r then map (fun p : nat * nat => [21; n2z (fst p); n2z (snd p)]) (s_regen r) else []).
+      match s_final_worker r with Some w => rel w | None => -1 end ] ]
+  ++ map (fun x => let w := we_rec x in
+                   [20; rel (w_idx w); n2z (w_steps w); wres_code (w_res w);
+                    n2z (fst (we_hints x)); b2z (snd (we_hints x))]) ws
+  ++ (if s_returned r
+      then map (fun p : nat * nat => [21; rel (fst p); rel (snd p)]) (s_regen r)
+           ++ map (fun x => [22; rel (w_idx (we_rec x)); n2z (we_memlen x)])
+                  (filter (fun x => is_failed (we_rec x)) ws)
+      else []).
 
 (* chronological, flat: every line carries the nesting depth of the activation
    (or tool frame) it belongs to *)
@@ -675,20 +834,21 @@ Fixpoint swarm_runs (factory_ok : nat -> bool) (beh : nat -> nat -> wstep) (thr 
 (* observations of every call, one after the other; indices are relative to the call *)
 Definition heal_seq (g : gbeh) (v : list (Z * vres)) (decay : Q) (mr : Z) (n : nat) : list (list Z) :=
   flat_map obs_heal (heal_runs (interp_gen g) (interp_val v) decay mr n 0).
-Definition swarm_seq (fac : list bool) (beh : list (list wstep)) (d : wstep) (thr : Q) (mg ms : Z)
-                     (n : nat) : list (list Z) :=
-  flat_map obs_swarm (swarm_runs (interp_fac fac) (interp_beh beh d) thr mg ms n 0).
+Definition swarm_seq_e (fac : list bool) (beh : list (list wstep)) (d : wstep) (thr : Q) (mg ms : Z)
+                       (p : mpol) (n : nat) : list (list Z) :=
+  flat_map obs_swarm_e
+    (swarm_runs_e (interp_spawn fac p) (interp_wstep beh d p) interp_summarize interp_memlen
+                  (O, false) thr mg ms n 0 (O, [])).
 
 Definition run_case (c : case) : list (list Z) :=
   match c with
   | CHeal g v decay mr => obs_heal (heal (interp_gen g) (interp_val v) decay mr)
-  | CSwarm fac beh d thr mg ms =>
-      obs_swarm (supervise (interp_fac fac) (interp_beh beh d) thr mg ms)
+  | CSwarm fac beh d thr mg ms p => swarm_seq_e fac beh d thr mg ms p 1
   | CTool p c tools hm md calls =>
       obs_tool (run_calls (interp_with_tools p) (interp_complete_st c)
                   (interp_tool_pre tools md) (interp_tool_post tools)
                   (match tools with [] => false | _ => true end) hm
                   nest_fuel (0%nat, 0%nat) [] 0 calls)
   | CHealSeq g v decay mr n => heal_seq g v decay mr n
-  | CSwarmSeq fac beh d thr mg ms n => swarm_seq fac beh d thr mg ms n
+  | CSwarmSeq fac beh d thr mg ms p n => swarm_seq_e fac beh d thr mg ms p n
   end.
